@@ -1098,8 +1098,9 @@ fn calc_compu_method_limits(
                         upper_limit = c.a * upper_limit + c.b;
                     } else {
                         // factor a is negative, so the lower and upper limits are swapped
-                        upper_limit = c.a * lower_limit + c.b;
+                        let new_upper_limit = c.a * lower_limit + c.b;
                         lower_limit = c.a * upper_limit + c.b;
+                        upper_limit = new_upper_limit;
                     }
                 }
             }
